@@ -188,13 +188,6 @@ structure FieldSame (a b : FieldSp) : Prop where
   dflt : a.dflt.value = b.dflt.value
   opt : effOptional a = effOptional b
 
-/-- the annotation converts to a Field CLASS (`int`, `list`, `Any` …): the one place where a factory given
-    with `=` is evaluated once, at class definition (known finding `default-factory-once`) -/
-def onceSp (tm : TypeMap) (ty : Sp) : Bool :=
-  match ev tm ty with
-  | .ok o => !isFieldObj o && gtliGivesClass tm o
-  | .error _ => false
-
 def defaultOk (O : Oracles) (d : FieldDecl) (v : PyVal) : Bool :=
   match validate O d v with
   | .ok _ => true
@@ -210,7 +203,7 @@ def fieldSupported (O : Oracles) (tm : TypeMap) (_future : Bool) (fs : FieldSp) 
       | .none => true
       | .eq v _ => eqDefault v && fs.mode == .ann
       | .kw v _ => scalarDefault v && kwAllowed fs.ty && (truthy v || defaultOk O (denote fs.ty) v)
-      | .eqF p _ => fs.mode == .ann && !(onceSp tm fs.ty && truthy p)
+      | .eqF _ _ => fs.mode == .ann
       | .kwF _ _ => kwAllowed fs.ty)
 
 /-- the expression only uses documented forms: `items=` is given fields, `None` only appears as
